@@ -458,3 +458,20 @@ fn tooling_step_check(kmax: usize) {
 fn c11_tooling_step_k6() {
     tooling_step_check(6);
 }
+
+//@ id: c11_tooling_step_k3
+//@ property: C11
+//@ tier: quick
+//@ encodes: as c11_tooling_step_k6
+//@ sym: as c11_tooling_step_k6 with a source of up to 3 raw tokens
+//@ oracle: as c11_tooling_step_k6
+//@ bounds: one call may read at most 3 raw tokens (a cheaper twin of c11_tooling_step_k6 that still finishes on variants of the code that inspect token text); unwind 6
+//@ stubs: as c11_tooling_step_k6
+//@ assumes: as c11_step_k6
+//@ replay: tooling
+#[kani::proof]
+#[kani::unwind(6)]
+#[kani::stub(<Tok<'_> as logos::Logos<'_>>::lex, lex_stub)]
+fn c11_tooling_step_k3() {
+    tooling_step_check(3);
+}
